@@ -518,6 +518,17 @@ may be excused by an insecure delegation — for a DS question the name one labe
 def insecureProofName (qname : Name) (isDS : Bool) : Name :=
   if isDS && !qname.isEmpty then qname.dropLast else qname
 
+/-- the exact-owner branch of `dnssec.VerifyNODATANSEC`: bits of the NSEC owned by the query name —
+(query type or CNAME set, SOA, NS).  `none` = the first such record does not exist (other branch). -/
+def verifyNodataExact (isDS : Bool) : List (Name × Bool × Bool × Bool) → Name → Option DelegRes
+  | [], _ => none
+  | (owner, ty, soa, ns) :: t, q =>
+    if owner != q then verifyNodataExact isDS t q
+    else if ty then some .nsMissing          -- rendered as ErrNSECTypeExists by the driver
+    else if isDS && soa then some .badDelegation
+    else if !isDS && ns && !soa then some .badDelegation
+    else some .ok
+
 /-! ### Resolver.verifyDNSSEC after the DNSKEY fetch -/
 
 inductive VRes
